@@ -420,8 +420,15 @@ def run(chk):
     F = chk.facts()
     chk.explanation = __doc__
     chk.trusted = ["spec/policy_sem.py (truth tables; atoms independent)", "rust-bitcoin lock-time comparison modelled on "
-                   "consensus encodings", "rustc THIR; msverif evaluator; model of iter/tree.rs iterators"]
+                   "consensus encodings", "rustc THIR; msverif evaluator"]
     if not ONLY or "1" in ONLY:
         chk.guard("R18.1", "semantic", check_semantic, chk, F)
     if not ONLY or "6" in ONLY:
         chk.guard("R18.6", "concrete", check_concrete, chk, F)
+    if not ONLY or "7" in ONLY:
+        # every policy function of this property folds over rtl_post_order_iter / pre_order_iter, evaluated above through
+        # the analyser's model of them: the model is the source's behaviour (rule shared with C20)
+        from . import c20
+        from ..report import RuleAlias
+        chk.guard("R18.7", "tree-iterators", c20.check_tree_iterators, RuleAlias(chk, {"R20.10": "R18.7"}, "the traversal "
+                  "the policy functions fold over"), F)
